@@ -9,6 +9,7 @@ pub mod c09;
 pub mod c10;
 pub mod c11;
 pub mod c12;
+pub mod c13;
 pub mod c14;
 pub mod c16;
 pub mod c17;
@@ -16,7 +17,7 @@ pub mod c18;
 
 use crate::engine::Property;
 
-pub const ALL_IDS: &[&str] = &["C01", "C03", "C04", "C05", "C07", "C08", "C09", "C10", "C11", "C12", "C14", "C16", "C17", "C18"];
+pub const ALL_IDS: &[&str] = &["C01", "C03", "C04", "C05", "C07", "C08", "C09", "C10", "C11", "C12", "C13", "C14", "C16", "C17", "C18"];
 
 pub fn build(id: &str) -> Option<Property> {
     match id {
@@ -30,6 +31,7 @@ pub fn build(id: &str) -> Option<Property> {
         "C10" => Some(c10::build()),
         "C11" => Some(c11::build()),
         "C12" => Some(c12::build()),
+        "C13" => Some(c13::build_property()),
         "C14" => Some(c14::build()),
         "C16" => Some(c16::build()),
         "C17" => Some(c17::build()),
